@@ -450,6 +450,30 @@ def rewrites(n_max, seed):
     return res
 
 
+def reassociate(enc):
+    """the same expression with every chain of equal operators re-nested to the right"""
+    pos = [0]
+    def parse():
+        c = enc[pos[0]]; pos[0] += 1
+        if c in '&|':
+            l = parse(); r = parse()
+            return (c, l, r)
+        return c
+    def flat(t, op):
+        if isinstance(t, tuple) and t[0] == op:
+            return flat(t[1], op) + flat(t[2], op)
+        return [t]
+    def build(t):
+        if not isinstance(t, tuple):
+            return t
+        items = [build(x) for x in flat(t, t[0])]
+        out = items[-1]
+        for x in reversed(items[:-1]):
+            out = t[0] + x + out
+        return out
+    return build(parse())
+
+
 def c10(tier, seed):
     thorough = tier == 'thorough'
     gs = []
@@ -460,8 +484,16 @@ def c10(tier, seed):
                 continue
             for e in trees(ne):
                 for f in trees(nf, ne):
-                    for k in (['L' * (ne + nf), ('LR' * 3)[:ne + nf]] if ne + nf <= 3 or thorough else ['L' * (ne + nf)]):
-                        hj.append([e, f, k, ''.join(str(i) for i in range(ne + nf)), 'M', 2 if ne + nf <= 3 else 3, 0])
+                    n = ne + nf
+                    asc = ''.join(str(i) for i in range(n))
+                    for k in (['L' * n, ('LR' * 3)[:n]] if n <= 3 or thorough else ['L' * n]):
+                        hj.append([e, f, k, asc, 'M', 2 if n <= 3 else 3, 0])
+                    if n <= 3:
+                        # the same id with and without '+' / exception on the two sides
+                        for k in (('LW' + 'L' * n)[:n], ('WL' + 'P' * n)[:n], ('PQ' + 'W' * n)[:n], ('OL' + 'W' * n)[:n]):
+                            hj.append([e, f, k, '0' * n, 'M', 2, 1])
+                            if n == 3:
+                                hj.append([e, f, k, '010', 'M', 2, 1])
     gs.append(grp('homomorphism', 'VH_hom', hj, merge=MS, cost=5, bound='sub-expressions E, F with |E|+|F| <= %d leaves' % (4 if not thorough else 5),
                   symbolic='allowed entries (choice variables)', asserts=['no-error-on-valid', 'and-homomorphic', 'or-homomorphic']))
     rj = []
@@ -469,6 +501,15 @@ def c10(tier, seed):
         for k in (['L' * n, ('RL' * 3)[:n]] if n <= 3 else ['L' * n]):
             idn = ''.join(str(i) for i in range(n))
             rj.append([l, r, k, idn, 'F', 'F', min(3, max(2, n)), 0, 1 if same else 0])
+    for l, r, n, same, rule in rewrites(3, seed):
+        if n <= 3:
+            for k in (('LW' + 'L' * n)[:n], ('PQ' + 'W' * n)[:n]):
+                rj.append([l, r, k, ('0' * n) if n < 3 else '001', 'F', 'F', 2, 1, 1 if same else 0])
+    # regrouping of whole trees: every 5-leaf tree against its right-nested re-association
+    for e in trees(5) if thorough else trees(5)[seed % 2::2]:
+        rr = reassociate(e)
+        if rr != e:
+            rj.append([e, rr, 'LLLLL', '01234', 'F', 'F', 4, 0, 1, 1])
     # parentheses and spacing only
     for n in (2, 3):
         for e in trees(n):
